@@ -47,6 +47,15 @@ func optTime(a string, w *world) (mod.OptTime, error) {
 		return mod.OptTime{Set: tSet, BaseRef: r}, nil
 	case "label":
 		return mod.OptTime{FromLabel: "stamp"}, nil
+	// the instant every time stamp of a uniform-time image already has, in several spellings of that instant
+	case "same": // UTC, as parsed from ...Z
+		return mod.OptTime{Set: t2020}, nil
+	case "samezone": // a fixed zone, as parsed from ...+01:00
+		return mod.OptTime{Set: t2020.In(time.FixedZone("", 3600))}, nil
+	case "samelocal": // the local zone, as built with time.Unix
+		return mod.OptTime{Set: time.Unix(t2020.Unix(), 0)}, nil
+	case "sameafter": // with an `after` guard that lies before it
+		return mod.OptTime{Set: t2020.In(time.FixedZone("", -7200)), After: t2020.Add(-time.Hour)}, nil
 	}
 	return mod.OptTime{}, fmt.Errorf("unknown time variant %q", a)
 }
